@@ -28,7 +28,7 @@ static std::string te_value(bool with_chunked) {
     return v;
 }
 static std::string bad_host() {
-    static const std::vector<std::string> b = {"a..b.example", ".example", "a$b.example", "ex ample", std::string(64, 'l') + ".example", "[::zz]", "[::1", "[::1]x", "[]", "h.example:0", "h.example:65536", "h.example:abc", "h.example:", "a_b%.example", "-"};
+    static const std::vector<std::string> b = {"a..b.example", ".example", "a$b.example", "ex ample", std::string(64, 'l') + ".example", "[::zz]", "[::1", "[::1]x", "[]", "h.example:0", "h.example:65536", "h.example:abc", "h.example:", "a_b%.example", "a^b.example", "a`b.example", "www.exam|ple.com", "-"};
     std::string h = rcx::pick(b);
     if (h == "-") { h.clear(); for (int i = 0; i < 30; i++) h += "abcdefgh."; h += "example"; } // > 255 bytes
     return h;
@@ -53,7 +53,7 @@ static Case gen_case() {
         case H_AMBIG_HOST: { int pv = rcx::range(0, 3); std::string port = ":" + std::to_string(rcx::range(1, 65535)); // different names; no port / the same port on both sides / a port on one side only
             target = "http://" + rcase("other.example") + (pv == 1 || pv == 2 ? port : "") + target; if (pv == 1 || pv == 3) host += port; } hdrs.push_back(H("Content-Length", std::to_string(body.size()))); c.want = HTP_HOST_AMBIGUOUS; c.want_name = "HTP_HOST_AMBIGUOUS"; break;
         case H_AMBIG_PORT: { int p1 = rcx::range(1, 65535), p2 = rcx::range(1, 65535); if (p2 == p1) p2 = p1 % 65535 + 1; target = "http://" + host + ":" + std::to_string(p1) + target; host += ":" + std::to_string(p2); hdrs.push_back(H("Content-Length", std::to_string(body.size()))); c.want = HTP_HOST_AMBIGUOUS; c.want_name = "HTP_HOST_AMBIGUOUS"; break; }
-        case H_MISSING: add_host = false; hdrs.push_back(H("Content-Length", std::to_string(body.size()))); c.want = HTP_HOST_MISSING; c.want_name = "HTP_HOST_MISSING"; break;
+        case H_MISSING: add_host = false; if (rcx::chance(1, 3)) target = "http://" + host + target; /* a host in the target does not replace the Host field HTTP/1.1 requires */ hdrs.push_back(H("Content-Length", std::to_string(body.size()))); c.want = HTP_HOST_MISSING; c.want_name = "HTP_HOST_MISSING"; break;
         case H_INVALID_URI: { std::string bh = bad_host(); while (bh.find(' ') != std::string::npos) bh = bad_host(); target = "http://" + bh + target; add_host = rcx::coin(); hdrs.push_back(H("Content-Length", std::to_string(body.size()))); c.want = HTP_HOSTU_INVALID; c.want_name = "HTP_HOSTU_INVALID"; break; }
         case H_INVALID_HDR: host = bad_host(); hdrs.push_back(H("Content-Length", std::to_string(body.size()))); c.want = HTP_HOSTH_INVALID; c.want_name = "HTP_HOSTH_INVALID"; break;
         case R_TE_CL: case R_MULTI_CL: hdrs.push_back(H("Content-Length", std::to_string(body.size()))); c.want = HTP_REQUEST_SMUGGLING; c.want_name = "HTP_REQUEST_SMUGGLING(response)"; break;
